@@ -400,8 +400,29 @@ class Instrument:
                 self.installed.append(co)
         mon.restart_events()
 
+    def install_global(self, filename_prefix: str, p_module_switch: float = 0.0):
+        """pre-emption points also in code objects that do not exist yet (modules imported during the run): global PY_START events,
+        switched off again (DISABLE) for every code location outside `filename_prefix`"""
+        mon = sys.monitoring
+        sched = self.sched
+        E = mon.events
+
+        def on_start(code, off):
+            if not code.co_filename.startswith(filename_prefix):
+                return mon.DISABLE
+            if code.co_name == "<module>" and sched.replay is None and sched.rng is not None and sched.rng.random() < p_module_switch:
+                sched.force = True  # a module body starts executing: the module is in sys.modules, half built -- the first-import window
+            sched.point("call")
+
+        mon.register_callback(TOOL, E.PY_START, on_start)
+        mon.set_events(TOOL, E.PY_START)
+        self._global = True
+
     def remove(self):
         mon = sys.monitoring
+        if getattr(self, "_global", False):
+            mon.set_events(TOOL, 0)
+            self._global = False
         for co in self.installed:
             try:
                 mon.set_local_events(TOOL, co, 0)
@@ -410,3 +431,41 @@ class Instrument:
         mon.register_callback(TOOL, mon.events.PY_START, None)
         mon.register_callback(TOOL, mon.events.LINE, None)
         self.installed = []
+
+
+class CooperativeImportLocks:
+    """importlib's per-module locks block in C; a managed task that would wait for a module another managed task is importing hands the
+    CPU over instead (and tries again), so that first-import interleavings can be scheduled without stalling the simulator"""
+
+    def __init__(self, sched: Sched):
+        self.sched = sched
+        self.real = None
+
+    def __enter__(self):
+        import importlib._bootstrap as B
+        sched = self.sched
+        self.real = real = B._ModuleLock.acquire
+
+        def acquire(lock):
+            t = sched.by_ident.get(_thread.get_ident())
+            if t is not None and sched.active:
+                spins = 0
+                while lock.count and lock.owner != _thread.get_ident() and spins < 200000:
+                    cands = sched._runnable(exclude=t)
+                    if not cands:
+                        break
+                    spins += 1
+                    if spins == 1:
+                        sched.log.ev("import-wait", t.idx, lock.name)
+                    holder = sched.by_ident.get(lock.owner)
+                    # the task that is importing the module gets the CPU (handing it to another waiter would only ping-pong)
+                    sched.switch_to(t, holder if holder in cands else cands[0])
+            return real(lock)
+
+        B._ModuleLock.acquire = acquire
+        return self
+
+    def __exit__(self, *exc):
+        import importlib._bootstrap as B
+        B._ModuleLock.acquire = self.real
+        return False
